@@ -36,6 +36,17 @@ structure Sys (σ β ρ ε : Type) where
   `Canopy.Exec.resetClearsCacheFact`; `false` is the mechanism before the repair, kept for the
   counterexample theorems) -/
   resetClearsCache : Bool
+  /-- the version (signer set) of the previous height's commit certificate that the block's header
+  embeds as `LastQuorumCertificate`; `applyBlock` is the execution whose begin-block consumes THAT
+  version (non-signer counters, reward reduction) -/
+  lastCertOf : β → Nat
+  /-- the execution whose begin-block consumes another version of that certificate: the one the node
+  happened to store when it committed the previous height -/
+  applyStale : σ → β → Nat → Except ε (σ × ρ)
+  /-- mechanism switch: does `CheckAndSetLastCertificate` write the header's certificate into the
+  working store on EVERY path (`true` on the source tree — generated fact
+  `Canopy.Exec.indexesLastCertFact`), or only outside sync? -/
+  indexesLastCert : Bool
 
 /-- one node -/
 structure Node (σ β ρ : Type) where
@@ -44,6 +55,8 @@ structure Node (σ β ρ : Type) where
   working : σ
   mem : σ
   cached : Option β
+  /-- the version of the commit certificate stored for the last committed height -/
+  lastCert : Nat
   /-- committed blocks with the result archived for them, newest first -/
   archive : List (β × ρ)
 
@@ -57,7 +70,7 @@ deriving DecidableEq, Repr
 variable {σ β ρ ε : Type} [DecidableEq β] [DecidableEq ρ]
 
 def init (s : σ) (h : Nat) : Node σ β ρ :=
-  { height := h, committed := s, working := s, mem := s, cached := none, archive := [] }
+  { height := h, committed := s, working := s, mem := s, cached := none, lastCert := 0, archive := [] }
 
 /-- the post-state of an *accepted* execution of `b` on `s` -/
 def exec (S : Sys σ β ρ ε) (s : σ) (b : β) : Option σ :=
@@ -107,28 +120,40 @@ def validate (S : Sys σ β ρ ε) (n : Node σ β ρ) (b : β) : Node σ β ρ 
 
 /-- bookkeeping after `store.Commit()`: new FSM and mempool copy from the committed store, then the
 deferred controller reset -/
-def finish (S : Sys σ β ρ ε) (n : Node σ β ρ) (s' : σ) (b : β) (r : ρ) : Node σ β ρ :=
+def finish (S : Sys σ β ρ ε) (n : Node σ β ρ) (s' : σ) (b : β) (r : ρ) (v : Nat) : Node σ β ρ :=
   reset S { height := n.height + 1, committed := s', working := s', mem := s', cached := n.cached,
-            archive := (b, r) :: n.archive }
+            lastCert := v, archive := (b, r) :: n.archive }
 
-/-- `HandlePeerBlock` → `CommitCertificate` (syncing or not: the same execution logic).
+/-- does the replay of `b` consume the node's stored version of the last certificate instead of the
+header's? Only on the sync path, only when the header's certificate is not written first, and only
+when the two versions differ. -/
+def stale (S : Sys σ β ρ ε) (n : Node σ β ρ) (b : β) (sync : Bool) : Bool :=
+  sync && !S.indexesLastCert && n.lastCert != S.lastCertOf b
+
+/-- the execution a replay on this node performs -/
+def replayExec (S : Sys σ β ρ ε) (n : Node σ β ρ) (b : β) (sync : Bool) : Except ε (σ × ρ) :=
+  if stale S n b sync then S.applyStale n.committed b n.lastCert else S.applyBlock n.committed b
+
+/-- `HandlePeerBlock` → `CommitCertificate`, outside sync (`sync = false`) or on the sync path; `v` is
+the version of the block's own commit certificate as delivered (stored on success).
 Cached result on block-hash match: nothing is executed, the working copy is committed as it is.
 Otherwise reset and replay. Every exit resets the working copy (deferred). -/
-def commit (S : Sys σ β ρ ε) (n : Node σ β ρ) (b : β) : Node σ β ρ × Outcome ρ :=
+def commit (S : Sys σ β ρ ε) (n : Node σ β ρ) (b : β) (sync : Bool := false) (v : Nat := 0) :
+    Node σ β ρ × Outcome ρ :=
   if S.height b ≠ n.height then (n, .wrongHeight) else
   if n.cached = some b then
-    (finish S n n.working b (S.claim b), .ok (S.claim b))
+    (finish S n n.working b (S.claim b) v, .ok (S.claim b))
   else
     let n := reset S n
-    match S.applyBlock n.working b with
-    | .ok (s', r) => if r = S.claim b then (finish S n s' b r, .ok r) else (reset S n, .mismatch)
+    match replayExec S n b sync with
+    | .ok (s', r) => if r = S.claim b then (finish S n s' b r v, .ok r) else (reset S n, .mismatch)
     | .error _ => (reset S n, .failed)
 
 /-- operations of a node, for histories -/
 inductive Op (β : Type) where
   | produce (b : β)
   | validate (b : β)
-  | commit (b : β)
+  | commit (b : β) (sync : Bool) (v : Nat)
   | interrupt
   | restart
 deriving Repr
@@ -136,7 +161,7 @@ deriving Repr
 def step (S : Sys σ β ρ ε) (n : Node σ β ρ) : Op β → Node σ β ρ
   | .produce b => (produce S n b).1
   | .validate b => (validate S n b).1
-  | .commit b => (commit S n b).1
+  | .commit b sync v => (commit S n b sync v).1
   | .interrupt => roundInterrupt n
   | .restart => restart n
 
